@@ -17,6 +17,7 @@ from . import graphs as gr
 from . import monitors as mon
 
 TOL = 1e-9
+EDGE_BUMP_FACTOR = 1.75     # nbr_kwargs carry a different value than spont_kwargs
 
 # harness rate functions (asymmetric on purpose: a swapped source/target changes the value)
 RF_NODE = {"deg": lambda G, node, **kw: 0.25 + 0.5 * G.degree(node) + kw.get("bump", 0.0),
@@ -64,7 +65,7 @@ def ref_tables(spec, G, bump=0.0):
         if wl:
             edgew[key] = {(u, v): G[u][v][wl] for (u, v) in pairs}
         elif rf:
-            edgew[key] = {(u, v): RF_EDGE[rf](G, u, v, bump=bump) if bump else RF_EDGE[rf](G, u, v) for (u, v) in pairs}
+            edgew[key] = {(u, v): RF_EDGE[rf](G, u, v, bump=EDGE_BUMP_FACTOR * bump) if bump else RF_EDGE[rf](G, u, v) for (u, v) in pairs}
         Je.append((tuple(ab), tuple(ac), rate, key))
     return He, Je, nodew, edgew
 
@@ -137,7 +138,7 @@ def run_spec(spec, props=("C03",)):
     def call(orc, full_):
         kw = {}
         if bump:
-            kw = dict(spont_kwargs={"bump": bump}, nbr_kwargs={"bump": bump})
+            kw = dict(spont_kwargs={"bump": bump}, nbr_kwargs={"bump": EDGE_BUMP_FACTOR * bump})     # different on purpose
         return EoN.Gillespie_simple_contagion(G, H, J, dict(IC), stats, tmin=tmin, tmax=tmax,
                                               return_full_data=full_, **kw)
 
